@@ -4,7 +4,7 @@
    1 = agree, 0 = disagree. *)
 From Coq Require Import List ZArith Bool.
 Import ListNotations.
-From V Require Import Valid.Hier Model.Graph Model.Queries.
+From V Require Import Valid.Hier Model.Graph Model.Queries Model.Dfs.
 Local Open Scope Z_scope.
 
 Definition decode_graph_row (row : list Z) : option (name * blk) :=
@@ -85,6 +85,13 @@ Definition answer (g : graph) (df db : option (list (name * list name))) (row : 
                      | Some true => Z.eqb r 1
                      | Some false => Z.eqb r 0
                      | None => false end
+         end &&
+         (* the line-by-line model of is_reachable_dfs (Model/Dfs.v) gives the same answer *)
+         match reach_dfs g a b with
+         | None => Z.eqb r 2
+         | Some (Some true) => Z.eqb r 1
+         | Some (Some false) => Z.eqb r 0
+         | Some None => false
          end)
   | 34 :: b :: r => match take_list r with Some (ds, []) => b2z (table_ok df b ds) | _ => 0 end
   | 35 :: b :: r => match take_list r with Some (ds, []) => b2z (table_ok db b ds) | _ => 0 end
